@@ -261,6 +261,10 @@ def _weave_states_in_region(
                 # any other op that contains ops:
                 elif op.regions:
                     _weave_states_in_region(op, dict(), rewriter)
+                    # accelerators set up inside the regions are in a state we do not track afterwards
+                    for region in op.regions:
+                        for accel in find_all_acc_names_in_region(region):
+                            state.pop(accel, None)
                     # ops nested in the regions may still affect the accelerator state
                     if has_accfg_effects(op):
                         state.clear()
